@@ -322,6 +322,20 @@ func runSer2(c *core.Ctx) {
 	c.Check(ok1 && ctlOK && cs.Equal(an.Range(0, 31)), nil, fname(c, esc), "control-range", P.Pos(ctlBlock.Instrs[0].Pos()),
 		"bytes not in the table and ∈ "+cs.String()+" are written as \\u00 + two lower-case hex digits (high nibble, low nibble)",
 		fmt.Sprintf("the \\u00xx branch runs for bytes ∈ %s (want [0,31]) with digits ok=%v", cs, ctlOK))
+	// ASCII by the byte, the rest by the rune: bytes ≥ 0x80 are decoded with utf8.DecodeRuneInString and
+	// the bytes of the rune copied as they stand; a special way out is taken only for an undecodable
+	// byte — RuneError *and* size 1 (RuneError with size 3 is the ordinary character U+FFFD)
+	if ok2 && vs.Equal(an.Range(32, 127)) {
+		rb := runeBranchOf(esc)
+		if rb.found {
+			ds, n3, ok3 := fr.ReachSet(esc, rb.decode.Block(), nil, nil)
+			c.CountPaths(n3)
+			c.Check(rb.ok && ok3 && ds.Equal(an.Range(128, 255)), nil, fname(c, esc), "verbatim-range", P.Pos(verbBlock.Instrs[0].Pos()),
+				"bytes not in the table and ∈ [32,127] are copied verbatim; bytes ∈ "+ds.String()+" are decoded as runes whose bytes are copied as they stand, except an undecodable byte (RuneError with size 1)",
+				fmt.Sprintf("rune-wise branch for bytes ∈ %s (want [128,255]): %s", ds, rb.why))
+			return
+		}
+	}
 	c.Check(ok2 && vs.Equal(an.Range(32, 255)), nil, fname(c, esc), "verbatim-range", P.Pos(verbBlock.Instrs[0].Pos()),
 		"bytes not in the table and ∈ "+vs.String()+" are copied verbatim (so <, >, &, multi-byte UTF-8 incl. U+2028/9 pass through)",
 		"verbatim branch runs for bytes ∈ "+vs.String()+", want [32,255]")
@@ -609,4 +623,152 @@ func verdictCacheHit(c *core.Ctx, ver *ssa.Function, v ssa.Value, wantCall strin
 		return false, "the cache is never filled"
 	}
 	return true, ""
+}
+
+// runeBranch: the part of an escaper that handles non-ASCII input by the rune.
+type runeBranch struct {
+	found  bool
+	ok     bool
+	why    string
+	decode *ssa.Call
+	copies map[*ssa.Call]bool // appends of s[i:i+size]
+}
+
+var runeBranchCache = map[*ssa.Function]*runeBranch{}
+
+// runeBranchOf: esc calls utf8.DecodeRuneInString(s[i:]) on its string parameter; every way from
+// there to the next loop iteration or return either appends exactly s[i:i+size] (size = the decoder's
+// second result) to the buffer, or has found r == RuneError *and* size == 1 (an undecodable byte).
+func runeBranchOf(esc *ssa.Function) *runeBranch {
+	if rb, ok := runeBranchCache[esc]; ok {
+		return rb
+	}
+	rb := &runeBranch{copies: map[*ssa.Call]bool{}}
+	runeBranchCache[esc] = rb
+	if esc == nil {
+		return rb
+	}
+	an.Instrs(esc, func(in ssa.Instruction) {
+		if call, ok := in.(*ssa.Call); ok && (an.CalleeName(&call.Call) == "unicode/utf8.DecodeRuneInString" || an.CalleeName(&call.Call) == "unicode/utf8.DecodeRune") {
+			rb.decode = call
+		}
+	})
+	if rb.decode == nil {
+		return rb
+	}
+	rb.found = true
+	var rEx, sizeEx *ssa.Extract
+	if rb.decode.Referrers() != nil {
+		for _, r := range *rb.decode.Referrers() {
+			if e, ok := r.(*ssa.Extract); ok {
+				if e.Index == 0 {
+					rEx = e
+				} else {
+					sizeEx = e
+				}
+			}
+		}
+	}
+	if sizeEx == nil {
+		rb.why = "the size of the decoded rune is not used"
+		return rb
+	}
+	// the decoder reads s[i:]
+	src, isSl := rb.decode.Call.Args[0].(*ssa.Slice)
+	if !isSl || src.High != nil || src.Low == nil {
+		rb.why = "the decoder is not applied to s[i:]"
+		return rb
+	}
+	// appends of s[i:i+size]
+	an.Instrs(esc, func(in ssa.Instruction) {
+		call, ok := in.(*ssa.Call)
+		if !ok {
+			return
+		}
+		if b, isB := call.Call.Value.(*ssa.Builtin); !isB || b.Name() != "append" || len(call.Call.Args) != 2 {
+			return
+		}
+		sl, isSl2 := call.Call.Args[1].(*ssa.Slice)
+		if !isSl2 || sl.X != src.X || sl.Low != src.Low || sl.High == nil {
+			return
+		}
+		if add, isAdd := sl.High.(*ssa.BinOp); isAdd && add.Op == token.ADD && ((add.X == src.Low && add.Y == ssa.Value(sizeEx)) || (add.Y == src.Low && add.X == ssa.Value(sizeEx))) {
+			rb.copies[call] = true
+		}
+	})
+	if len(rb.copies) == 0 {
+		rb.why = "the bytes of the decoded rune are not appended as s[i:i+size]"
+		return rb
+	}
+	// every way on from the decoder: the copy, or an undecodable byte
+	exits := map[*ssa.BasicBlock]bool{}
+	hdr := an.LoopHeaderOf(rb.decode.Block())
+	for _, b := range esc.Blocks {
+		if _, isRet := an.LastInstr(b).(*ssa.Return); isRet {
+			exits[b] = true
+		}
+	}
+	if hdr != nil {
+		exits[hdr] = true
+	}
+	rb.ok = true
+	var walk func(p an.Path)
+	seen := 0
+	walk = func(p an.Path) {
+		if seen > 4096 || !rb.ok {
+			return
+		}
+		last := p[len(p)-1]
+		if len(p) > 1 && exits[last] {
+			seen++
+			copied := false
+			for _, b := range p[:len(p)-1] {
+				for _, in := range b.Instrs {
+					if c2, ok := in.(*ssa.Call); ok && rb.copies[c2] {
+						copied = true
+					}
+				}
+			}
+			if copied {
+				return
+			}
+			isErr, isOne := false, false
+			for _, cd := range p.Conds() {
+				cd = an.NormCond(cd)
+				b, ok := cd.V.(*ssa.BinOp)
+				if !ok || (b.Op == token.EQL) != cd.True || (b.Op != token.EQL && b.Op != token.NEQ) {
+					continue
+				}
+				k, isK := an.ConstInt(b.Y)
+				if !isK {
+					continue
+				}
+				if rEx != nil && b.X == ssa.Value(rEx) && k == 0xFFFD {
+					isErr = true
+				}
+				if b.X == ssa.Value(sizeEx) && k == 1 {
+					isOne = true
+				}
+			}
+			if !(isErr && isOne) {
+				rb.ok = false
+				rb.why = "a way on from the decoder neither copies the rune's bytes nor has found RuneError together with size 1: a validly encoded U+FFFD (RuneError, size 3) is treated as undecodable"
+			}
+			return
+		}
+		for _, sc := range last.Succs {
+			on := false
+			for _, q := range p[1:] {
+				if q == sc {
+					on = true
+				}
+			}
+			if on {
+				continue
+			}
+			walk(append(append(an.Path(nil), p...), sc))
+		}
+	}
+	walk(an.Path{rb.decode.Block()})
+	return rb
 }
